@@ -1028,6 +1028,17 @@ def check_C19(ctx):
         g["emit"] = "EmitHist"
         g["consts"]["Chains"] = chains(q)
         ctx.job(name, gens=[g], invariants=["Inv_C19"], ops=[], cfg=cfg, nontrivial=has_ready)
+    # the same histories under spellings whose start delimiter begins with the end delimiter's last character: a tag written
+    # directly behind another one ("> *//* <") must still be a tag at every step of the history
+    for (ds, de) in [("/* <", "> */"), ("/*", "*/")]:
+        gs = []
+        for g in (lines_gen(5 if q else 6, 2, 2, ["M2", "M2u"], blank=False, pairs=True, pair_kind="M1", max_code=2),
+                  lines_gen(5 if q else 6, 2, 2, ["T1", "T2u"], blank=False, tail=True, max_code=1 if q else 2)):
+            g["base"] = "GenHist"
+            g["emit"] = "EmitHist"
+            g["consts"]["Chains"] = chains(q)
+            gs.append(dict(g, cfg={"ds": ds, "de": de}))
+        ctx.job("hist-adjacent[%s|%s]" % (ds, de), gens=gs, invariants=["Inv_C19"], ops=[], cfg=cfg, nontrivial=has_ready)
 
 
 CLI_DOCS_DEFAULT = [
